@@ -279,3 +279,67 @@ func Verif_C10_api() {
 	verifAssert(w.Drain(func(k, v any) {}) == ErrClosed, "api: Drain after Stop is ErrClosed")
 	verifReach("stopped")
 }
+
+// H10g: operations on a key while the callback of its previous firing is still
+// running (slow execute function). The key is set again during the callback;
+// afterwards it is left alone, removed, or moved. The new timer must behave
+// like any other: fire exactly once at its own tick with the new value, never
+// fire after RemoveTimer, follow MoveTimer.
+func Verif_C10_refire() {
+	n := verifParam("apiSlots")
+	I := time.Duration(verifParam("interval"))
+	var fired []verifFire
+	tick := 0
+	gate := make(chan struct{})
+	tk := &verifTicker{c: make(chan time.Time)}
+	w, err := newTimingWheelWithClock(I, n, func(k, v any) {
+		fired = append(fired, verifFire{k, v, tick})
+		if v == 1 {
+			<-gate // the first firing's callback is slow
+		}
+	}, tk)
+	verifAssert(err == nil, "refire: wheel is created")
+	doTick := func() {
+		tick++
+		tk.c <- time.Time{}
+		verifYield()
+	}
+	verifAssert(w.SetTimer("k", 1, I) == nil, "refire: first SetTimer succeeds")
+	verifYield()
+	doTick() // k fires; its callback now blocks on the gate
+	verifAssert(len(fired) == 1 && fired[0].val == 1, "refire: the first timer fired at its tick")
+	d, steps := verifDelay("d", n, I)
+	verifAssert(w.SetTimer("k", 2, d) == nil, "refire: SetTimer during the callback succeeds")
+	verifYield()
+	close(gate) // the slow callback returns
+	verifYield()
+	setTick := tick
+	op := verifChoose("afterwards", 3)
+	wantTick := setTick + steps
+	switch op {
+	case 1:
+		verifAssert(w.RemoveTimer("k") == nil, "refire: RemoveTimer succeeds")
+		verifYield()
+	case 2:
+		d2, steps2 := verifDelay("d2", n, I)
+		verifAssert(w.MoveTimer("k", d2) == nil, "refire: MoveTimer succeeds")
+		verifYield()
+		wantTick = setTick + steps2
+	}
+	total := verifParam("maxRev")*n + 2
+	for i := 0; i < total; i++ {
+		doTick()
+	}
+	if op == 1 {
+		verifAssert(len(fired) == 1, "refire: a removed task never fires, also when its key was re-set while the previous firing's callback was running")
+		verifReach("refire-removed")
+	} else {
+		verifAssert(len(fired) == 2, "refire: the re-set task fires exactly once")
+		if len(fired) == 2 {
+			verifAssert(fired[1].val == 2 && fired[1].tick == wantTick, "refire: it fires at its own tick with the new value")
+		}
+		verifReach("refire-fired")
+	}
+	w.Stop()
+	verifYield()
+}
